@@ -3,10 +3,11 @@
 import sys, os, json, shutil
 ID, M, caught = sys.argv[1:4]
 note = sys.argv[4] if len(sys.argv) > 4 else ""
-src = "/tmp/seed/%s/out/%s" % (ID, M)
-res = open("/tmp/confirm/%s_%s.result" % (ID, M)).read().strip()
+base = os.environ.get("SEEDBASE", "/tmp/seed"); tag = os.environ.get("SEEDTAG", "")
+src = "%s/%s/out/%s" % (base, ID, M)
+res = open("/tmp/confirm/%s_%s%s.result" % (ID, tag, M)).read().strip()
 assert "demo_clean_rc=0" in res and "demo_bug_rc=0" not in res and "suite_rc=0" in res and "'failures': '0'" in res, res
-dst = "/verif/seeded/%s-%s" % (ID, M)
+dst = "/verif/seeded/%s-%s%s" % (ID, tag, M)
 os.makedirs(dst, exist_ok=True)
 shutil.copy(src + "/patch.diff", dst + "/patch.diff")
 shutil.copy(src + "/demo.py", dst + "/demo.py")
